@@ -86,7 +86,7 @@ def main():
     seen_clause = {}
     for i, f in enumerate(violations):
         seen_clause[f["clause"]] = seen_clause.get(f["clause"], 0) + 1
-        if seen_clause[f["clause"]] > 3:
+        if seen_clause[f["clause"]] > int(os.environ.get("VERIF_MAXREPLAY", "3")):
             continue
         path = os.path.join(rdir, "%s-%d.json" % (pid, i))
         with open(path, "w") as fh:
